@@ -742,6 +742,36 @@ pub fn gen(seed: u64, thorough: bool, o: &mut Out) -> Vec<String> {
         }
         q.push("end".into());
     }
+    // capacity boundary: the unknown count exactly at / one above / one below the capacity, with the capacity
+    // equal to the full bit width of V, one below it, or small; parity first, then the data
+    for vb in [16usize, 256] {
+        for cap in [vb, vb - 1, 3, 1] {
+            for delta in [-1i64, 0, 1] {
+                let unknown = (cap as i64 + delta).max(0) as usize;
+                let n = (unknown + 3).max(4).min(500);
+                let unknown = unknown.min(n);
+                let rows: Vec<Vec<u8>> = (0..(2 * unknown + 4)).map(|_| {
+                    let mut v = rng.bytes((n + 7) / 8);
+                    if n % 8 != 0 { let l = v.len(); v[l - 1] &= (1u8 << (n % 8)) - 1; }
+                    v
+                }).collect();
+                let s = Scn { n, bs: 2, vb, cap, rows, orig: (0..n).map(|_| rng.bytes(2)).collect() };
+                q.extend(s.header());
+                // the first `unknown` blocks are lost; data first, then the coded blocks, then the lost data
+                for i in unknown..n {
+                    q.push(format!("blk {} {}", i, hex(&s.block(i))));
+                }
+                for k in 0..s.rows.len() {
+                    q.push(format!("blk {} {}", n + k, hex(&s.block(n + k))));
+                }
+                for i in 0..unknown {
+                    q.push(format!("blk {} {}", i, hex(&s.block(i))));
+                }
+                q.push("end".into());
+                o.stat("capacity-boundary-scenarios");
+            }
+        }
+    }
     // exhaustive: every sequence of length <= L over a fixed 6-row matrix, N <= 3
     {
         let maxlen = if thorough { 6 } else { 4 };
